@@ -1,3 +1,4 @@
 SPECIFICATION TSpec
+CONSTANT KnownErase = FALSE
 POSTCONDITION Accepted
 CHECK_DEADLOCK FALSE
